@@ -267,20 +267,42 @@ def Sim.qTok (s : Sim) (i : Nat) : String :=
   let sh := if s.sharded then toString (s.pool.net i).shard else "-"
   "q" ++ ks ++ "@" ++ sh
 
-/-- A query for `shard`: the implementation's answer must be what one of the connections the MODEL can hand
-out (`Pool.handable`: the shard's own bucket when it has a connection, else any published one) would give. -/
-def Sim.query (s : Sim) (shard : Nat) (implTok : String) : String :=
+/-- All sequences of `len` elements of `xs`. -/
+def seqsOf {α : Type} (xs : List α) : Nat → List (List α)
+  | 0 => [[]]
+  | len + 1 => (seqsOf xs len).flatMap fun tl => xs.map (· :: tl)
+
+/-- Every connection the MODEL's `connection_for_shard` (`shard = some s`) / `random_connection` (`none`) hands out
+for some random choices: the model functions themselves are run over all choices that matter (indices below the
+number of published connections / of shards). -/
+def possibleHandouts (p : P) (shard : Option Nat) : List Nat :=
+  let m := max 1 p.conns.length
+  let n := p.nShards
+  let rs := List.range m
+  let pairs := (List.range n).flatMap fun a => rs.map fun b => (a, b)
+  let rhos : List (Nat → Nat × Nat) := (seqsOf pairs n).map fun (sq : List (Nat × Nat)) => fun (k : Nat) => sq.getD k (0, 0)
+  let outs := rhos.flatMap fun ρ => rs.flatMap fun r =>
+    match shard with
+    | some s => [p.connectionForShard s r ρ]
+    | none => (List.range n).map fun rsh => p.randomConnection rsh r ρ
+  (outs.filterMap id).eraseDups
+
+/-- A query for `shard` (`none`: through `random_connection`): the implementation's answer must be what one of the
+connections the MODEL hands out would give. -/
+def Sim.queryOpt (s : Sim) (shard : Option Nat) (implTok : String) : String :=
   -- the refiller may or may not have handled the error event of a connection that has just broken: both the
   -- state before and after `connError` are legitimate
-  let before := s.pool.handable shard
-  let after := ((List.foldl (fun p i => step p (.connError i)) s.pool
-    ((s.pool.conns ++ s.pool.excess).filter fun i => (s.pool.net i).broken)).handable shard).filter
+  let before := possibleHandouts s.pool shard
+  let after := (possibleHandouts (List.foldl (fun p i => step p (.connError i)) s.pool
+    ((s.pool.conns ++ s.pool.excess).filter fun i => (s.pool.net i).broken)) shard).filter
       fun i => !(s.pool.net i).broken
   let live := (before.filter fun i => !(s.pool.net i).broken) ++ after
   if implTok == "q!" && (live.isEmpty || before.any fun i => (s.pool.net i).broken) then implTok
   else if live.any (fun i => s.qTok i == implTok) then implTok
   else if live.isEmpty then "q!"
   else (live.head?.map s.qTok).getD "q?" ++ "(model)"
+
+def Sim.query (s : Sim) (shard : Nat) (implTok : String) : String := s.queryOpt (some shard) implTok
 
 /-- Connections the driver still holds (published, excess, or having their keyspace set) and that are not
 broken: the others were dropped (excess cleared, reshard, requested-shard miss), i.e. closed. -/
@@ -339,6 +361,7 @@ def Sim.steps : List String → List String → Sim → List String → Option (
       match arg.toNat? with
       | none => none
       | some sh => Sim.steps rest (impl.drop 1) s (s.query sh tok :: acc)
+    | "J" => Sim.steps rest (impl.drop 1) s (s.queryOpt none tok :: acc)
     | "K" =>
       match arg.toNat? with
       | none => none
@@ -476,16 +499,22 @@ structure CSim where
   ss : Session
   names : List (String × Bool)
   rules : List (Nat × Option Nat)      -- (name index, node or all): the node answers that `USE` with an error
+  muted : List Nat := []               -- nodes that do not answer `USE` at all (the statement is dropped)
+  stuck : List (Nat × List (Nat × Nat)) := []   -- per node: (connection, number of dropped statements still in its queue)
 
 def CSim.nodeSim (c : CSim) (n : Nat) : Sim :=
-  { pool := c.ss.cluster.pools n, names := c.names, sharded := false, n := 1, holdNew := false, held := [],
+  let pool := c.ss.cluster.pools n
+  { pool, names := c.names, sharded := false, n := 1, holdNew := false, held := [],
+    stuck := ((c.stuck.find? (·.1 == n)).map (·.2)).getD [],
+    holdNext := if c.muted.contains n then (List.range pool.nextId).map (·, 1000) else [],
     rules := (c.rules.filter fun r => r.2.isNone || r.2 == some n).map fun r =>
       { idx := r.1, shard := none, kind := .reject, spent := false } }
 
 /-- Run a per-node simulation step and replay its pool events through the session model. -/
 def CSim.onNode (c : CSim) (n : Nat) (f : Sim → Sim) : CSim :=
   let s := f (c.nodeSim n)
-  { c with ss := s.log.foldl (fun ss e => sstep ss (.cluster (.pool n e))) c.ss }
+  { c with ss := s.log.foldl (fun ss e => sstep ss (.cluster (.pool n e))) c.ss,
+           stuck := (n, s.stuck) :: c.stuck.filter (·.1 != n) }
 
 def CSim.cl (c : CSim) (e : CEv VerifiedName) : CSim := { c with ss := sstep c.ss (.cluster e) }
 
@@ -521,7 +550,7 @@ def CSim.nodeRow (c : CSim) (n : Nat) : String :=
 def CSim.queryToks (c : CSim) : List String :=
   c.ss.cluster.known.flatMap fun n =>
     let p := c.ss.cluster.pools n
-    ((p.handable 0).filter fun i => !(p.net i).broken).map fun i =>
+    ((possibleHandouts p (some 0)).filter fun i => !(p.net i).broken).map fun i =>
       "q" ++ (match (p.net i).serverKs with | some v => srvName v | none => "-") ++ s!"@{n}"
 
 def CSim.steps : List String → List String → CSim → List String → Option (List String)
@@ -546,6 +575,11 @@ def CSim.steps : List String → List String → CSim → List String → Option
         | _, _ => none
       | _ => none
     | "X" => CSim.steps rest impl { c with rules := [] } acc
+    | "T" =>
+      match arg.toNat? with
+      | some n => CSim.steps rest impl { c with muted := n :: c.muted } acc
+      | none => none
+    | "t" => CSim.steps rest impl { c with muted := [] } acc
     | "K" =>
       match arg.toNat? with
       | none => none
@@ -617,6 +651,24 @@ def run (case impl : String) : String :=
           | .ok () => "ok"
           | .error e => "err " ++ useErrLabel e
     | _, _, _ => "bad-case"
+  | ["ukr", labels] =>
+    let parse (l : String) : Option UseRes := match l with
+      | "ok" => some (.ok ())
+      | "broken" => some (.error .broken)
+      | "timeout" => some (.error .timeout)
+      | "db" => some (.error .dbError)
+      | "mismatch" => some (.error .mismatch)
+      | "unexpected" => some (.error .unexpected)
+      | _ => none
+    let name : UseErr → String
+      | .broken => "broken" | .timeout => "timeout" | .dbError => "db" | .mismatch => "mismatch" | .unexpected => "unexpected"
+    match (if labels == "-" then some [] else (labels.splitOn ",").mapM parse) with
+    | none => "bad-case"
+    | some rs =>
+      match useKeyspaceResult rs with
+      | .ok => "ok"
+      | .err e => "err:" ++ name e
+      | .panic => "panic"
   | ["pool", mode, init, names, script] => runPool mode init names script impl.trimAscii.toString
   | ["sess", n, names, script] =>
     if impl.trimAscii.toString == "sess-skip" then "sess-skip" else runSess n names script impl.trimAscii.toString
